@@ -1237,6 +1237,8 @@ func (e *Engine) cancelCheckSelect(st *State, in *ssa.Select) {
 	}
 	for _, s := range in.States {
 		if s.Dir == types.RecvOnly && isDoneOf(s.Chan, fc.Cancellable, st.frames[0].fn) {
+			st.addCheck(&Check{Name: fmt.Sprintf("%s.cancellable.select@%s", e.curFunc, shortPos(posStr(e, in.Pos()))), Kind: "cancellable", Goal: "true", Pos: posStr(e, in.Pos()), Tags: fc.CancelTags, Func: e.curFunc,
+				Clause: "cancellable " + fc.Cancellable + ": this blocking select has an arm receiving from " + fc.Cancellable + ".Done()"})
 			return
 		}
 	}
